@@ -60,7 +60,10 @@ fn single(sg: bool, wr: bool, fixed: Option<&str>) -> Sexp {
     Sexp::tagged("single", vec![b(sg), b(wr), Sexp::atom(fixed.unwrap_or("-")), Sexp::atom("-")])
 }
 
-/// wrap a single shape in a checking wrapper: the meta flag is set, the check runs after the inner ones
+/// wrap a single shape in a checking wrapper: the meta flag is set, the check runs after the inner ones.
+/// A `Box` *inside* a wrapper stack (`Mut<Box<Signer<_>>>`) is transparent — the stack is still one
+/// single account whose meta is the union of the flags — so its `boxed` marker is absorbed here; only an
+/// outermost `Box` shows up as `boxed` in the shape.
 fn wrap(shape: Sexp, idx: usize, check: char) -> Sexp {
     match shape {
         Sexp::List(mut v) if v.len() == 5 && v[0].as_atom() == Some("single") => {
@@ -69,7 +72,16 @@ fn wrap(shape: Sexp, idx: usize, check: char) -> Sexp {
             v[4] = Sexp::atom(format!("{cs}{check}"));
             Sexp::List(v)
         }
+        Sexp::List(v) if v.len() == 2 && v[0].as_atom() == Some("boxed") => wrap(v[1].clone(), idx, check),
         other => panic!("not a single shape: {other}"),
+    }
+}
+
+/// the shape below a pass-through wrapper (absorbing an in-stack `Box`, as above)
+fn pass(shape: Sexp) -> Sexp {
+    match shape {
+        Sexp::List(v) if v.len() == 2 && v[0].as_atom() == Some("boxed") => pass(v[1].clone()),
+        other => other,
     }
 }
 
@@ -165,7 +177,7 @@ where
 {
     type Client = Pubkey;
     fn shape() -> Sexp {
-        T::shape()
+        pass(T::shape())
     }
     fn client(v: &Sexp) -> Option<Pubkey> {
         key_client(v)
@@ -184,7 +196,7 @@ where
 {
     type Client = Pubkey;
     fn shape() -> Sexp {
-        T::shape()
+        pass(T::shape())
     }
     fn client(v: &Sexp) -> Option<Pubkey> {
         key_client(v)
